@@ -219,6 +219,25 @@ def bounded_transparency(reg, tier, seed):
                 if dst != want_dst or not msggen.same_message(de.deserialize(pkt.data), de.deserialize(h4.serializer.serialize(m))):
                     failures.append({"key": "transparency/bounded", "clause": f"{name} was not forwarded intact to {want_dst}", "input": inp,
                                      "observed": str(dst)})
+        # chat from the simulator that looks like a scripted-restriction (RLV) command - owner-say text starting with "@": with no
+        # addon there is nobody to act on it, so it goes to the viewer like any other chat, whatever follows the "@"
+        from hippolyzer.lib.base.message.message import Message as _MC, Block as _BC
+        from hippolyzer.lib.base.datatypes import UUID as _UC
+        for text in ("@version", "@detach=n,fly=n", "@Bob is home now, say hi", "@ 5 visitors today", "@", "@,,", "@=", "plain text", "@clear"):
+            for ctype in (8, 1):            # OwnerSay, normal chat
+                for rel in (0, 0x40):
+                    pid4 += 1
+                    m = _MC("ChatFromSimulator", _BC("ChatData", FromName="obj", SourceID=_UC(int=9), OwnerID=h4.session.agent_id, SourceType=2, ChatType=ctype,
+                                                      Audible=1, Position=(1.0, 2.0, 3.0), Message=text), packet_id=pid4, flags=rel, direction=Direction.IN)
+                    data, src = h4.datagram(m, 0)
+                    exc, sent = h4.feed(data, src)
+                    evals += 1
+                    seen.add(("owner-say", text, ctype, rel))
+                    n_chat = sum(1 for _r, _d, p_ in sent if de.deserialize(p_.data).name == "ChatFromSimulator")
+                    if exc is not None or n_chat != 1:
+                        failures.append({"key": "transparency/owner-say", "clause": f"chat from the simulator with text {text!r} (chat type {ctype}, "
+                                         f"{'reliable' if rel else 'unreliable'}) reached the viewer {n_chat} times (exception {exc!r}); no addon is loaded",
+                                         "input": {"text": text, "chat_type": ctype, "reliable": bool(rel)}, "observed": repr(exc)})
         # a region that is announced again while its circuit is open (TeleportFinish / CrossedRegion / EstablishAgentCommunication carry
         # its address and a seed capability: the same one, or a new one) keeps its circuit: datagrams go on flowing both ways
         from hippolyzer.lib.base.message.message import Message as _M4, Block as _B4
